@@ -153,6 +153,61 @@ theorem merge_cell_none_none (f f2 fx : Flags) (mx : List Meta) (v : Bytes) :
 
 end cells
 
+/-! ## the cells for a leaf-list instance (system-ordered: no `replace`; the instance is identified by its value) -/
+
+theorem isTerm_of_leaflist {S : Schema} {s : Nat} (hll : S.isKind s .leaflist = true) : S.isTerm s = true := by
+  have := isKind_iff.mp hll
+  simp [Schema.isTerm, Schema.isKind, this]
+
+theorem isLeaf_of_leaflist {S : Schema} {s : Nat} (hll : S.isKind s .leaflist = true) : S.isKind s .leaf = false := by
+  have := isKind_iff.mp hll
+  simp [Schema.isKind, this]
+
+section cellsLL
+variable {S : Schema} {o : MergeOpts} {s : Nat} (hll : S.isKind s .leaflist = true) (h1 : S.isUserOrd s = false)
+  (h2 : S.isDupInst s = false)
+include hll h1 h2
+
+/-- leaf-list instance: `create` then `delete` -/
+theorem merge_cell_ll_create_delete (f f2 : Flags) (v : Bytes) (hf : f2.dflt = f.dflt) :
+    cellEff S o .delete (nCreate s f v) .create (nDelete s f2 v) none = seqEff S (nCreate s f v) (nDelete s f2 v) none := by
+  have h3 := isTerm_of_leaflist hll
+  have h4 := isKind_iff.mp hll
+  have h5 := isLeaf_of_leaflist hll
+  cell_simp h1 h2 h3 h4 [hf, h5] <;> (cases hq : f.dflt <;> simp_all)
+
+theorem merge_cell_ll_create_none (f f2 : Flags) (v : Bytes) :
+    cellEff S o .none (nCreate s f v) .create (nNone s f2 v f.dflt) none = seqEff S (nCreate s f v) (nNone s f2 v f.dflt) none := by
+  have h3 := isTerm_of_leaflist hll
+  have h4 := isKind_iff.mp hll
+  have h5 := isLeaf_of_leaflist hll
+  cell_simp h1 h2 h3 h4 [h5]
+
+theorem merge_cell_ll_delete_create (f f2 fx : Flags) (mx : List Meta) (v : Bytes) (hfx : fx.dflt = f.dflt) :
+    cellEff S o .create (nDelete s f v) .delete (nCreate s f2 v) (some (.term s fx mx v)) =
+      seqEff S (nDelete s f v) (nCreate s f2 v) (some (.term s fx mx v)) := by
+  have h3 := isTerm_of_leaflist hll
+  have h4 := isKind_iff.mp hll
+  have h5 := isLeaf_of_leaflist hll
+  cases hd1 : f.dflt <;> cases hd2 : f2.dflt <;> cell_simp h1 h2 h3 h4 [h5, hfx, hd1, hd2] <;> simp_all
+
+theorem merge_cell_ll_none_delete (f f2 fx : Flags) (mx : List Meta) (v : Bytes) :
+    cellEff S o .delete (nNone s f v fx.dflt) .none (nDelete s f2 v) (some (.term s fx mx v)) =
+      seqEff S (nNone s f v fx.dflt) (nDelete s f2 v) (some (.term s fx mx v)) := by
+  have h3 := isTerm_of_leaflist hll
+  have h4 := isKind_iff.mp hll
+  have h5 := isLeaf_of_leaflist hll
+  cell_simp h1 h2 h3 h4 [h5]
+
+theorem merge_cell_ll_none_none (f f2 fx : Flags) (mx : List Meta) (v : Bytes) :
+    cellEff S o .none (nNone s f v fx.dflt) .none (nNone s f2 v f.dflt) (some (.term s fx mx v)) =
+      seqEff S (nNone s f v fx.dflt) (nNone s f2 v f.dflt) (some (.term s fx mx v)) := by
+  have h3 := isTerm_of_leaflist hll
+  have h4 := isKind_iff.mp hll
+  have h5 := isLeaf_of_leaflist hll
+  cases hd1 : fx.dflt <;> cases hd2 : f2.dflt <;> cell_simp h1 h2 h3 h4 [h5, hd1, hd2]
+end cellsLL
+
 /-! ## a change undone by the second diff disappears (`lyd_diff_is_redundant`) -/
 
 theorem merge_cancel_leaf {S : Schema} {o : MergeOpts} {s : Nat} (hleaf : S.isKind s .leaf = true) (f f2 : Flags)
